@@ -3,11 +3,13 @@ import PfModel.Model.Sched
 import PfModel.Model.SchedPart
 import PfModel.Model.SchedExec
 import PfModel.Model.SchedOps
+import PfModel.Model.SchedCount
+import PfModel.Model.SchedCountPart
 /-! Driver for C03 (`map.sched`): the parallel map runner `PF.Sched.runMapSched` under a given family of schedules
     (`orders`: per generation the (function name, future position) pairs in execution order) and `dump_in_subprocess`
     assignment (`dump_sub`: output names); reports the result, whether it equals the sequential runner's (`PF.Map.runMap`),
     the barrier on the execution log, and per generation the submitted ids, the execution order, the call log and the dumps. -/
-open Lean PF PF.Drv PF.Map PF.Sched PF.Pieces PF.SchedP PF.SchedX
+open Lean PF PF.Drv PF.Map PF.Sched PF.Pieces PF.SchedP PF.SchedX PF.SchedC
 
 def getASpec (j : Json) : R ASpec := do
   let (n, ax) ← asPair asStr (asList (asOpt asStr)) j
@@ -144,6 +146,8 @@ def runPartsObs (fs : List MFunc) (inputs : List (String × Val)) (ui : List (St
       let meJ := jObj [("res", rJ), ("trace", jList putTrace trs)]
       let rest ← runPartsObs fs inputs ui dumpSub mode ps r.store
       return jObj [("part", rJ), ("equal", jBool (rJ.compress == seqJ.compress)), ("modes_agree", jBool (meJ.compress == otherJ.compress)),
+                   -- round 9: per function (name, `callCount` in the execution-order log, `demandedP`) — `Props/C03CountPart.lean`
+                   ("counts", jList (fun (c : String × Nat × Nat) => jArr [jStr c.1, jNat c.2.1, jNat c.2.2]) (callTableP fs sm.1 sm.2 fixed old trs)),
                    ("ops_equal", jBool (opsJ.compress == wantOps.compress)),
                    ("barrier", jBool (barrierOk (runLog 0 trs))), ("trace", jList putTrace trs)] :: rest
 
@@ -213,6 +217,10 @@ def handle (m : String) (a : Json) : R Json := do
       return jObj [("sched", rJ), ("equal", jBool (rJ.compress == seqJ.compress)),
                    ("unique_outputs", jBool (uniqueOutputs fs)),
                    ("barrier", jBool (barrierOk (runLog 0 trs))),
+                   -- round 9: the counts the theorems of `Props/C03Count.lean` are about (`callCount`, `demanded`, `taskCount`)
+                   ("counts", jList (fun (c : String × Nat × Nat) => jArr [jStr c.1, jNat c.2.1, jNat c.2.2]) (callTable fs r.shapes r.masks trs)),
+                   ("tasks", jList (fun (t : Nat × Nat × Nat × Nat) => jArr [jNat t.1, jNat t.2.1, jNat t.2.2.1, jNat t.2.2.2]) (taskTable trs)),
+                   ("stray", jList (fun (t : Nat × Nat × Nat) => jArr [jNat t.1, jNat t.2.1, jNat t.2.2]) (strayTasks trs)),
                    ("trace", jList (fun (tr : GenTrace) => jObj [("ids", jList putId tr.ids), ("ran", jList putId tr.ran),
                                       ("calls", jList putCall tr.calls), ("dumps", jList putDump tr.dumps)]) trs)]
   | _ => .error s!"unknown entry {m}"
